@@ -35,9 +35,11 @@ Inductive lop :=
 | LDie (i : nat)                   (* the receiver of protocol i is dropped *)
 | LMgrDie
 | LRemoteClose (arm : N)           (* observed: 2 the yamux stream yields an error, 3 it ends *)
-| LRace (nm : N) (arm : N).        (* every handle dropped while an inbound substream (name nm) is waiting:
-                                      observed 1 permit refused, 5 `None` command; with a negotiation
-                                      pending there is a permit left and the substream is served *)
+| LRace (nm : N) (mask : N) (arm : N).
+    (* several things happen before the loop is polled again (mask: bit 0 the first protocol that holds a
+       handle force-closes, bit 1 the remote closes the socket, bit 2 every protocol drops its handle,
+       bit 3 the remote opens a substream under name nm): more than one branch of the select! is ready and
+       the exit arm is the schedule's choice (observed: arm). *)
 
 Definition running (s : lst) : bool := match gone (l_task s) with None => true | Some _ => false end.
 Definition held (s : lst) (i : nat) : bool := nth i (l_handle s) false.
@@ -66,19 +68,46 @@ Definition rc_of (s : lst) (o : lop) : N :=
       if negb (i <? nprot s)%nat then 2 else if held s i && running s then 0 else 1
   | LDrop i | LDie i => if (i <? nprot s)%nat then 0 else 2
   | LMgrDie => 0
-  | LRemoteOpen _ _ | LRemoteClose _ | LRace _ _ => if running s then 0 else 2
+  | LRemoteOpen _ _ | LRemoteClose _ | LRace _ _ _ => if running s then 0 else 2
   end.
 
 (* the handles after the operation *)
 Definition handles_after (s : lst) (o : lop) : list bool :=
   match o with
   | LDrop i => if (i <? nprot s)%nat then set_nth i false (l_handle s) else l_handle s
-  | LRace _ _ => if running s then map (fun _ => false) (l_handle s) else l_handle s
+  | LRace _ mask _ => if running s && N.testbit mask 2 then map (fun _ => false) (l_handle s) else l_handle s
   | _ => l_handle s
   end.
 
 Definition neg_result (tbl : list Names.proto) (nm : N) : neg_ev :=
   match negotiated tbl nm with Some i => NegOk i false | None => NegFailAnon end.
+
+(* the exit arms a race can be seen to take (index of the exit message + 1): 4 force-close — a queued
+   ForceClose is received before the end of the command stream; 2 / 3 the connection fails / ends; 5 the
+   command stream ends — only when no strong sender is left: no handle, no pending negotiation, no
+   ForceClose queued before; 1 the inbound substream is refused its permit — same condition *)
+Definition race_arms (h : list bool) (pend : nat) (mask : N) : list N :=
+  let nop := (pend =? 0)%nat in
+  let force := N.testbit mask 0 && any_held h in
+  (if force then [4] else []) ++
+  (if N.testbit mask 1 then [2; 3] else []) ++
+  (if N.testbit mask 2 && nop && negb force then [5] else []) ++
+  (if N.testbit mask 3 && N.testbit mask 2 && nop then [1] else []).
+
+(* the inbound substream of a race gets its permit (and is then negotiated) unless every strong sender
+   is gone *)
+Definition race_served (pend : nat) (mask : N) : bool :=
+  N.testbit mask 3 && negb (N.testbit mask 2 && (pend =? 0)%nat).
+
+Definition ev_of_arm (arm : N) : cev :=
+  if arm =? 1 then EYamux (YSub false) else if arm =? 2 then EYamux YErr else if arm =? 3 then EYamux YEof
+  else if arm =? 4 then ECmd CForce else ECmd CNone.
+
+Definition pick_arm (arms : list N) (arm : N) : option N :=
+  match arms with
+  | [] => None
+  | d :: _ => Some (if existsb (N.eqb arm) arms then arm else d)
+  end.
 
 (* the events the loop handles because of the operation, in order *)
 Definition events_of (s : lst) (o : lop) : list cev :=
@@ -96,9 +125,12 @@ Definition events_of (s : lst) (o : lop) : list cev :=
   | LDie i => [EDie i]
   | LMgrDie => [EMgrDie]
   | LRemoteClose arm => [EYamux (if arm =? 2 then YErr else YEof)]
-  | LRace nm arm =>
-      if (l_pend s =? 0)%nat then [if arm =? 1 then EYamux (YSub false) else ECmd CNone]
-      else [EYamux (YSub true); ENeg (neg_result (l_tbl s) nm)]
+  | LRace nm mask arm =>
+      (if race_served (l_pend s) mask then [EYamux (YSub true); ENeg (neg_result (l_tbl s) nm)] else []) ++
+      match pick_arm (race_arms (l_handle s) (l_pend s) mask) arm with
+      | Some a => [ev_of_arm a]
+      | None => []
+      end
   end.
 
 Definition pend_after (s : lst) (o : lop) : nat :=
@@ -114,7 +146,11 @@ Definition pend_after (s : lst) (o : lop) : nat :=
 Definition arm_allowed (s : lst) (o : lop) : bool :=
   match o with
   | LRemoteClose arm => (arm =? 2) || (arm =? 3)
-  | LRace _ arm => if (l_pend s =? 0)%nat then (arm =? 1) || (arm =? 5) else arm =? 0
+  | LRace _ mask arm =>
+      match race_arms (l_handle s) (l_pend s) mask with
+      | [] => arm =? 0
+      | l => existsb (N.eqb arm) l
+      end
   | _ => true
   end.
 
